@@ -64,7 +64,7 @@ def loopReadIter : (fuel : Nat) → SR → (reconnectOk : Bool) → SR × S.HRes
             | .keyError => "KeyError" | .valueError => "ValueError" | .structError => "struct.error"
             | .indexError => "IndexError" | .mqttException => "MQTTException" | .malformedPacket => "MalformedPacket"
             | .unicodeError => "UnicodeDecodeError" | .typeError => "TypeError" | .assertionError => "AssertionError"
-            | .other => "other"))
+            | .runtimeError => "RuntimeError" | .other => "other"))
         | .rc c =>
           let s := { x.s with lastIn := x.s.now }
           let (s, rc) := s.loopRcHandle c
